@@ -7,8 +7,8 @@
 (*          current when flushed"                                          *)
 (*   ind    IndentLevel                                                    *)
 (*   cfg    [pretty, unit (bytes of one indent step), semis, map]          *)
-(*   ml, mc generated line/column of the source mapper (advanced only by   *)
-(*          the writes that go through the mapper)                         *)
+(*   ml, mc generated line/column of the source mapper (every write goes    *)
+(*          through it, layout included)                                   *)
 (*   maps   recorded mappings [gl, gc, sl, sc, name]                       *)
 (* An op is a record [op, ...]: str(s) rune(r) semi space nl indent inc    *)
 (* dec lead(cs) map(sl, sc, name).                                         *)
@@ -17,20 +17,14 @@ EXTENDS Integers, Sequences, TLC
 
 W0(cfg) == [out |-> <<>>, pend |-> <<>>, ind |-> 0, cfg |-> cfg, ml |-> 0, mc |-> 0, maps |-> <<>>,
            last |-> 0,          \* last byte written through WriteString/WriteRune (0: none)
-           omit |-> FALSE]      \* an optional semicolon was left out and nothing was written since
+           omit |-> FALSE,      \* an optional semicolon was left out and nothing was written since
+           pm |-> <<>>]         \* mappings recorded, waiting for the position of the next write
 Cfg(pretty, unit, semis, map) == [pretty |-> pretty, unit |-> unit, semis |-> semis, map |-> map]
 
 RECURSIVE Rep(_, _)
 Rep(s, n) == IF n <= 0 THEN <<>> ELSE s \o Rep(s, n - 1)
 \* writeIndent: an empty unit falls back to two spaces
 IndentBytes(w) == Rep(IF w.cfg.unit = <<>> THEN <<32, 32>> ELSE w.cfg.unit, w.ind)
-
-RECURSIVE FlushFrom(_, _)
-FlushFrom(w, p) ==
-  IF p = <<>> THEN [w EXCEPT !.pend = <<>>]
-  ELSE FlushFrom([w EXCEPT !.out = @ \o (IF Head(p) = 9 THEN IndentBytes(w) ELSE <<Head(p)>>)], Tail(p))
-\* flushPending: straight into the builder, the mapper does not see it
-Flush(w) == FlushFrom(w, w.pend)
 
 \* SourceMapper.AdvanceString
 RECURSIVE AdvStr(_, _, _, _)
@@ -40,6 +34,29 @@ AdvStr(s, i, l, c) ==
   ELSE IF s[i] = 10 THEN AdvStr(s, i + 1, l + 1, 0)
   ELSE AdvStr(s, i + 1, l, c + 1)
 
+\* raw: layout text (pending whitespace, comments, restored semicolons) goes into the builder AND
+\* advances the source mapper
+Raw(w, s) ==
+  LET p == AdvStr(s, 1, w.ml, w.mc)
+  IN [w EXCEPT !.out = @ \o s, !.last = IF s = <<>> THEN @ ELSE s[Len(s)],
+               !.ml = IF w.cfg.map THEN p[1] ELSE @, !.mc = IF w.cfg.map THEN p[2] ELSE @]
+\* writeNewline: no blank lines before the first token
+RawNewline(w) == IF w.out = <<>> THEN w ELSE Raw(w, <<10>>)
+
+RECURSIVE FlushFrom(_, _)
+FlushFrom(w, p) ==
+  IF p = <<>> THEN [w EXCEPT !.pend = <<>>]
+  ELSE FlushFrom(IF Head(p) = 9 THEN Raw(w, IndentBytes(w)) ELSE IF Head(p) = 10 THEN RawNewline(w) ELSE Raw(w, <<Head(p)>>), Tail(p))
+\* flushPending
+Flush(w) == FlushFrom(w, w.pend)
+
+\* commitMappings: the waiting mappings are recorded at the current generated position
+RECURSIVE CommitFrom(_, _)
+CommitFrom(w, i) ==
+  IF i > Len(w.pm) THEN [w EXCEPT !.pm = <<>>]
+  ELSE CommitFrom([w EXCEPT !.maps = Append(@, [gl |-> w.ml, gc |-> w.mc, sl |-> w.pm[i].sl, sc |-> w.pm[i].sc, name |-> w.pm[i].name])], i + 1)
+Commit(w) == CommitFrom(w, 1)
+
 \* restoreSemi: the semicolon WriteSemi left out is written after all when the text that follows
 \* would continue the statement, is " else", or is a comment / blank line (next = <<59>>)
 IsPrefixOf(p, s) == Len(p) <= Len(s) /\ SubSeq(s, 1, Len(p)) = p
@@ -48,17 +65,17 @@ RestoreSemi(w, next) ==
   ELSE LET w0 == [w EXCEPT !.omit = FALSE] IN
        IF next = <<>> THEN w0
        ELSE IF next[1] \in {40, 91, 96, 43, 45, 47, 59} \/ IsPrefixOf(<<32, 101, 108, 115, 101>>, next)
-            THEN [w0 EXCEPT !.out = Append(@, 59), !.last = 59, !.mc = IF w.cfg.map THEN @ + 1 ELSE @]
+            THEN Raw(w0, <<59>>)
             ELSE w0
 
 WString(w, s) ==
-  LET w1 == Flush(RestoreSemi(w, s))
+  LET w1 == Commit(Flush(RestoreSemi(w, s)))
       p  == AdvStr(s, 1, w1.ml, w1.mc)
   IN [w1 EXCEPT !.out = @ \o s, !.last = IF s = <<>> THEN @ ELSE s[Len(s)],
                 !.ml = IF w.cfg.map THEN p[1] ELSE @, !.mc = IF w.cfg.map THEN p[2] ELSE @]
 \* WriteRune (r is one byte here: every rune the printers write is ASCII)
 WRune(w, r) ==
-  LET w1 == Flush(RestoreSemi(w, <<r>>))
+  LET w1 == Commit(Flush(RestoreSemi(w, <<r>>)))
   IN [w1 EXCEPT !.out = Append(@, r), !.last = r,
                 !.ml = IF w.cfg.map /\ r = 10 THEN @ + 1 ELSE @,
                 !.mc = IF ~w.cfg.map THEN @ ELSE IF r = 10 THEN 0 ELSE @ + 1]
@@ -80,18 +97,19 @@ RECURSIVE LeadFrom(_, _, _)
 LeadFrom(w, cs, i) ==
   IF i > Len(cs) THEN w
   ELSE LET c  == cs[i]
-           w1 == IF i = 1 THEN (IF Len(c) > 0 THEN [w EXCEPT !.out = Append(@, 32)] ELSE w)
-                 ELSE [w EXCEPT !.out = Append(@, 10) \o (IF Len(c) > 0 THEN IndentBytes(w) ELSE <<>>)]   \* blank lines are not indented
-           w2 == [w1 EXCEPT !.out = @ \o (IF Len(c) > 0 THEN <<47, 47>> ELSE <<>>) \o c]
+           w1 == IF i = 1 THEN (IF Len(c) > 0 /\ w.out # <<>> THEN Raw(w, <<32>>) ELSE w)
+                 ELSE LET wn == RawNewline(w) IN IF Len(c) > 0 THEN Raw(wn, IndentBytes(wn)) ELSE wn   \* blank lines are not indented
+           w2 == Raw(IF Len(c) > 0 THEN Raw(w1, <<47, 47>>) ELSE w1, c)
        IN LeadFrom(w2, cs, i + 1)
 WLead(w, cs) ==
   IF ~w.cfg.pretty \/ Len(cs) = 0 THEN w
   ELSE LET w0 == IF Len(cs) > 1 \/ Len(cs[1]) > 0 THEN RestoreSemi(w, <<59>>) ELSE w
        IN [LeadFrom(w0, cs, 1) EXCEPT !.pend = <<10, 9>>]
 
+\* AddMapping / AddNamedMapping: recorded, committed by the next write
 WMap(w, sl, sc, name) ==
   IF ~w.cfg.map THEN w
-  ELSE [w EXCEPT !.maps = Append(@, [gl |-> w.ml, gc |-> w.mc, sl |-> sl, sc |-> sc, name |-> name])]
+  ELSE [w EXCEPT !.pm = Append(@, [sl |-> sl, sc |-> sc, name |-> name])]
 
 Apply(w, o) ==
   CASE o.op = "str" -> WString(w, o.s)
